@@ -220,12 +220,16 @@ Fixpoint legalb (mv : list (N * N)) (h : history) : bool :=
   | a :: r => match r with [] => true | b :: _ => move_ok mv (snd a) (snd b) && legalb mv r end
   end.
 
-(* starts at tmin, ordered, possible statuses only, legal moves only *)
-Definition good_histb (ps : list N) (mv : list (N * N)) (tmin : Q) (h : history) : bool :=
+(* starts at tmin, ordered, possible statuses only *)
+Definition wf_histb (ps : list N) (tmin : Q) (h : history) : bool :=
   match h with
   | [] => false
-  | e :: _ => Qeqb (fst e) tmin && sortedb h && forallb (fun x => mem (snd x) ps) h && legalb mv h
+  | e :: _ => Qeqb (fst e) tmin && sortedb h && forallb (fun x => mem (snd x) ps) h
   end.
+
+(* ... and legal moves only *)
+Definition good_histb (ps : list N) (mv : list (N * N)) (tmin : Q) (h : history) : bool :=
+  wf_histb ps tmin h && legalb mv h.
 
 (* a time series as a step function: the counts of the last row at or before t *)
 Fixpoint step_at (rows : list row) (t : Q) (cur : option (list Z)) : option (list Z) :=
